@@ -179,17 +179,14 @@ def rule_traced_types(ctx: Ctx, repo: Repo) -> None:
 def rule_trace_config(ctx: Ctx, repo: Repo) -> None:
     tr = repo.fn("monkeytype", "trace")
     ctx.functions.add(tr.fq)
-    tc = repo.fn("monkeytype.tracing", "trace_calls")
-    for caller, call, callee in [s for s in call_sites(repo, lambda c: c is tc) if s[0] is tr]:
-        for pname, meth in (("logger", "trace_logger"), ("max_typed_dict_size", "max_typed_dict_size"), ("code_filter", "code_filter"), ("sample_rate", "sample_rate")):
-            a = bound_argument(callee, call, pname)
-            ok = a is not None and isinstance(a, ast.Call) and isinstance(a.func, ast.Attribute) and a.func.attr == meth and dotted(a.func.value) == "config" and not a.args
-            ctx.check(ok, "R-C01.4", tr.fq, f"trace() builds the tracer's {pname} from config.{meth}()", construct=norm(a) if a is not None else "<missing>")
+    from . import glue_model as GM
+    for pname, meth in (("logger", "trace_logger"), ("max_typed_dict_size", "max_typed_dict_size"), ("code_filter", "code_filter"), ("sample_rate", "sample_rate")):
+        GM.check_forwarding(ctx, repo, "R-C01.4", pname, meth, f"trace() builds the tracer's {pname} from config.{meth}()")
     cfg = repo.cls("monkeytype.config", "Config")
     tl = repo.method(cfg, "trace_logger")
-    rets = returns_of(tl)
-    ok = len(rets) == 1 and is_call_to(rets[0][1], "CallTraceStoreLogger") and len(rets[0][1].args) == 1 and norm(rets[0][1].args[0]) == "self.trace_store()"
-    ctx.check(ok, "R-C01.4", tl.fq, "the default logger writes to the configuration's own trace store (the one `stub` reads)", construct="; ".join(norm(n.ast) for n, _ in rets))
+    made = GM.default_logger(repo)
+    ok = made is not None and made[0] == "CallTraceStoreLogger" and made[1] == (R("cfg", meth=K("trace_store"), of=S("self")),)
+    ctx.check(ok, "R-C01.4", tl.fq, "the default logger writes to the configuration's own trace store (the one `stub` reads)", construct=f"returns {made}")
 
 
 def run(ctx: Ctx, repo: Repo, tier: str) -> None:
